@@ -514,6 +514,42 @@ def run(fx, chk, tier):
             else:
                 chk.bad("R-OWNFRAG", key, "%s reaches into %s with %s(): the result depends on fragments other than the one the sample lies in" % (nm, base, tail), site_of(fn, t.get("line")))
     chk.floor("R-OWNFRAG", "fragment element accesses in the lookups", nown, 5)
+    # ---------------- R-BASE: the moof start is only the fallback of the explicit base data offset
+    chk.rule("R-BASE", "the start of the enclosing movie fragment is used as the base of a sample's offset only when the tfhd carries no explicit base data offset: every use of moof_offsets[idx] is the default of `tfhd.base_data_offset` (unwrap_or / map_or / the None side of a test of that field)")
+    nbase = 0
+    for fn in with_helpers(fx.impl_fn("Mp4Track", None, "sample_offset")):
+        b = body_of(fn)
+        if b is None:
+            continue
+        import c03 as _c03b
+        sws = _c03b.opt_field_switches(b, "base_data_offset")
+        for blk, t in b.calls():
+            tail = (t["callee"].get("path") or "").split("::")[-1]
+            if tail not in ("index", "get", "get_unchecked") or not t["args"] or "self.moof_offsets" not in b.op_str(t["args"][0]):
+                continue
+            nbase += 1
+            rendered = b.op_str({"copy": t["dest"]}) if not t["dest"]["p"] else None
+            ok, how = False, "its value is not the default of tfhd.base_data_offset"
+            # (a) the default argument of an Option combinator on tfhd.base_data_offset
+            for b2, t2 in b.calls():
+                tl2 = (t2["callee"].get("path") or "").split("::")[-1]
+                if tl2 in ("unwrap_or", "map_or", "unwrap_or_else", "or", "map_or_else") and len(t2["args"]) >= 2 and "Option" in (t2["callee"].get("path") or ""):
+                    recv = b.op_str(t2["args"][0])
+                    dflt = b.op_str(t2["args"][1])
+                    if recv.endswith("tfhd.base_data_offset") and "self.moof_offsets" in dflt and (b2 == blk or b.can_reach(blk, b2)):
+                        # and no other consumer of the loaded value
+                        ok, how = True, "default of %s.%s(..)" % (recv.split(".")[-1], tl2)
+            # (b) evaluated only on the None side of a test of the field
+            for (sb, none_t, some_t) in sws:
+                if none_t is not None and (none_t == blk or b.dominates(none_t, blk)) and (some_t is None or not (some_t == blk or b.can_reach(some_t, blk, avoid=[sb]))):
+                    ok, how = True, "evaluated on the None side of the test of tfhd.base_data_offset"
+            # other uses of the same element on paths that do not go through the combinator: a second Index call is a second instance
+            if ok and how.startswith("default of"):
+                cons = [b2 for b2, t2 in b.calls() if b2 != blk and any("Index::index(self.moof_offsets" in b.op_str(a) for a in t2["args"])]
+                ok = len(cons) <= 1 or all((t3["callee"].get("path") or "").split("::")[-1] in ("unwrap_or", "map_or", "unwrap_or_else", "or", "map_or_else") for b3, t3 in b.calls() if b3 in cons)
+            chk.require(ok, "R-BASE", "%s|moof_offsets|%d" % (fn["name"], nbase), how,
+                        "%s takes the start of the movie fragment as the base although %s: with an explicit base data offset in the tfhd the sample is read from the wrong place" % (fn["name"], how), site_of(fn, t.get("line")))
+    chk.floor("R-BASE", "uses of the fragment start as a base", nbase, 1)
     # ---------------- R-FRESH: the tracks of a newly opened reader start without fragments
     chk.rule("R-FRESH", "every Mp4Track of a reader being opened is built from its trak box (From<&TrakBox>), never copied from a reader that may already hold fragments")
     from packs_common import reader_entries
